@@ -98,45 +98,78 @@ def run(ctx, sess):
                 continue
             can_reach_skip.add(bid)
             work.extend(p_.id for p_, _ in f.blocks[bid].preds)
-        for ev in f.stores():
+        # the pattern may be built by a helper of this file that the skip branch calls with the writer object
+        def _touches_scratch(g_):
+            return any(c_.callee in ('memset', '__builtin_memset', '__builtin___memset_chk') and g_.path(c_.args[0]) is not None and
+                       g_.path(c_.args[0]).last_field() == 'buffer_u64' for c_ in g_.calls()) or \
+                any(s_.k == 'decl' and s_.e is not None and any(nd.get('op') == 'member' and nd.get('field') == 'buffer_u64' for nd in walk(s_.e)) and
+                    any(strip_casts(x.store_parts()[0]).get('op') == 'sub' and strip_casts(strip_casts(x.store_parts()[0])['k'][0]).get('name') == s_.name for x in g_.stores())
+                    for s_ in g_.stores())
+        fill_helpers = []
+        for c_ in f.calls():
+            g_ = P.functions.get(c_.callee)
+            if g_ is not None and g_.file == f.file and g_ is not f and c_.block.id in can_reach_skip and g_.name != 'wr_data_inner' and _touches_scratch(g_) and g_ not in fill_helpers:
+                fill_helpers.append(g_)
+                ctx.saw(g_)
+        for g, ev in [(f, ev_) for ev_ in f.stores()] + [(g_, ev_) for g_ in fill_helpers for ev_ in g_.stores()]:
             lhs, rhs, o = ev.store_parts()
             l0 = strip_casts(lhs)
-            if l0.get('op') != 'sub' or ev.block.id not in can_reach_skip:
+            if l0.get('op') != 'sub' or (g is f and ev.block.id not in can_reach_skip):
                 continue
             base = strip_casts(l0['k'][0])
             if base.get('op') != 'ref':
                 continue
             # pointer local aliasing the scratch
-            defs = [s for s in f.stores() if s.k == 'decl' and s.name == base['name'] and s.e is not None and
+            defs = [s for s in g.stores() if s.k == 'decl' and s.name == base['name'] and s.e is not None and
                     any(nd.get('op') == 'member' and nd.get('field') == 'buffer_u64' for nd in walk(s.e))]
             if not defs:
                 continue
             # under which data type?
             under = None
-            for (bid, label) in control_deps_transitive(f, ev.block.id):
-                c = strip_casts(f.blocks[bid].cond) if f.blocks[bid].cond else None
+            for (bid, label) in control_deps_transitive(g, ev.block.id):
+                c = strip_casts(g.blocks[bid].cond) if g.blocks[bid].cond else None
                 if c is not None and c.get('op') == 'bin' and c['o'] == '==' and label == 'T' and any(nd.get('op') == 'member' and nd.get('field') == 'data_type' for nd in walk(c['k'][0])):
                     under = strip_casts(c['k'][1]).get('m') or c['k'][1].get('m') or const_of(c['k'][1])
             r0 = strip_casts(rhs) if rhs is not None else None
             is_nan = r0 is not None and (r0.get('fc') == 'nan' or r0.get('m') == 'NAN' or any(nd.get('fc') == 'nan' or nd.get('m') == 'NAN' for nd in walk(r0)))
             nan_stores += 1
-            ctx.ob('C09.1', is_nan, f.name, 'gap fill store under %s' % under, ev.where(), 'stores NaN' if is_nan else 'float gap samples are filled with %s instead of NaN' % show(rhs))
+            ctx.ob('C09.1', is_nan, g.name, 'gap fill store under %s' % under, ev.where(), 'stores NaN' if is_nan else 'float gap samples are filled with %s instead of NaN' % show(rhs))
             # element type matches the data type
             et = defs[0].t
             want = {'JLS_DATATYPE_F32': 'p:f32', 'JLS_DATATYPE_F64': 'p:f64'}.get(under)
             if want:
-                ctx.ob('C09.1', et == want, f.name, 'fill element type for %s' % under, ev.where(), 'fills through %s' % et)
+                ctx.ob('C09.1', et == want, g.name, 'fill element type for %s' % under, ev.where(), 'fills through %s' % et)
         ctx.floor('NaN fill stores', nan_stores, 2)
         ctx.ob('C09.1', len(floats) == 2, f.name, 'float types covered', f.where(), 'float data types accepted: %s, fill branches: %d' % (['0x%x' % x for x in floats], nan_stores))
         ms = [c for c in f.calls(('memset', '__builtin_memset', '__builtin___memset_chk')) if f.path(c.args[0]) is not None and f.path(c.args[0]).last_field() == 'buffer_u64'
               and const_of(c.args[1]) == 0]
-        okz = bool(ms) and const_of(ms[0].args[2]) == scratch_bytes
-        ctx.ob('C09.1', okz, f.name, 'integer gap fill zeroes the whole scratch', ms[0].where() if ms else f.where(), 'memset(scratch, 0, %s), scratch is %d bytes' % (const_of(ms[0].args[2]) if ms else None, scratch_bytes))
+        ms_h = [(g_, c) for g_ in fill_helpers for c in g_.calls(('memset', '__builtin_memset', '__builtin___memset_chk'))
+                if g_.path(c.args[0]) is not None and g_.path(c.args[0]).last_field() == 'buffer_u64' and const_of(c.args[1]) == 0]
+        ms_all = ms + [c for _, c in ms_h]
+        okz = bool(ms_all) and const_of(ms_all[0].args[2]) == scratch_bytes
+        ctx.ob('C09.1', okz, (ms_h[0][0] if (ms_h and not ms) else f).name, 'integer gap fill zeroes the whole scratch', ms_all[0].where() if ms_all else f.where(), 'memset(scratch, 0, %s), scratch is %d bytes' % (const_of(ms_all[0].args[2]) if ms_all else None, scratch_bytes))
+        # a helper counts as a fill only when every path through it builds the pattern
+        helper_fills = {}
+        for g_ in fill_helpers:
+            gfill = [c for gg, c in ms_h if gg is g_]
+            for ev in g_.stores():
+                l0 = strip_casts(ev.store_parts()[0])
+                if l0.get('op') == 'sub' and strip_casts(l0['k'][0]).get('op') == 'ref' and any(
+                        s_.k == 'decl' and s_.name == strip_casts(l0['k'][0]).get('name') and s_.e is not None and
+                        any(nd.get('op') == 'member' and nd.get('field') == 'buffer_u64' for nd in walk(s_.e)) for s_ in g_.stores()):
+                    gfill.append(ev)
+            ghdrs = set(h for h, body in loops(g_).items() if any(ev in gfill for bid in body for ev in g_.blocks[bid].events))
+            wg = find_path(g_, 'entry', lambda e2, facts: 'stop' if e2 in gfill else ('target' if e2.k == 'ret' else None), refine=False,
+                           on_block_end=lambda b, facts: 'stop' if b.id in ghdrs else None)
+            helper_fills[g_.name] = wg
+            ctx.ob('C09.1', wg is None, g_.name, 'every path through the fill helper builds the pattern', g_.where(),
+                   'every return follows a fill' if wg is None else
+                   'the helper can return without having written the pattern (it trusts that the scratch still holds it): the scratch is also the work area of the sub-byte realign, so a gap after an unaligned overlap is filled with whatever that left behind', wg.render() if wg else None)
         # every path of the skip branch to the block writer passes a fill
         fills = set(id(m) for m in ms)
         for c in skip_calls:
             # fill dominance: some fill store/memset on every path from entry to the call
-            fill_events = [ev for ev in f.events() if (ev.k == 'call' and id(ev) in fills)]
+            fill_events = [ev for ev in f.events() if (ev.k == 'call' and (id(ev) in fills or (ev.callee in helper_fills and helper_fills[ev.callee] is None)))]
             for ev in f.stores():
                 l0 = strip_casts(ev.store_parts()[0])
                 if l0.get('op') == 'sub' and strip_casts(l0['k'][0]).get('op') == 'ref' and strip_casts(l0['k'][0]).get('name') in ('f32', 'f64'):
@@ -155,10 +188,18 @@ def run(ctx, sess):
                 if nd.get('op') == 'member' and nd.get('field') == 'data_type':
                     from ..ir import path_of
                     dt_path = str(path_of(nd))
+        if dt_path is None:
+            for g_ in fill_helpers:
+                for b in g_.blocks.values():
+                    for nd in walk(b.cond or {}):
+                        if nd.get('op') == 'member' and nd.get('field') == 'data_type':
+                            from ..ir import path_of
+                            dt_path = str(path_of(nd))
         if dt_path is None or ssb is None:
             raise AnalysisBroken('data type path / sample size local not found in jls_wr_fsr_data')
         call = skip_calls[0]
         bad = []
+        undecided = []
         okn = 0
         for dt in dts:
             w = fd.call(psz, [dt])
@@ -166,7 +207,7 @@ def run(ctx, sess):
             vals = values_at(P, f, call, call.args[2], env)
             consts = [v for v in vals if v is not None]
             if not consts:
-                bad.append('0x%x: count not decidable' % dt)
+                undecided.append(dt)
                 continue
             for v in consts:
                 need = (v * w + 7) // 8
@@ -174,6 +215,10 @@ def run(ctx, sess):
                     bad.append('type 0x%x (width %d): up to %d samples = %d bytes are read from the %d-byte scratch' % (dt, w, v, need, scratch_bytes))
                 else:
                     okn += 1
+        if undecided and not bad:
+            if not any(not o_['ok'] for o_ in ctx.obligations):
+                raise AnalysisBroken('gap fill count not decidable for %d data types (the count is not a local expression of jls_wr_fsr_data)' % len(undecided))
+            ctx.note('C09.2: gap fill count not decidable for %d data types; another obligation already failed' % len(undecided))
         ctx.ob('C09.2', not bad, f.name, 'gap fill count fits the scratch for every data type', call.where(),
                '%d (type, count) pairs within %d bytes' % (okn, scratch_bytes) if not bad else '; '.join(bad[:3]) + (' (+%d more)' % (len(bad) - 3) if len(bad) > 3 else ''))
         # the only non-constant definition of the count is the clamp to the remaining gap
@@ -330,121 +375,142 @@ def run(ctx, sess):
     if scratch_fill:
         # ---- C09.5: every subscript of the scratch (directly or through a local pointer initialised from it) stays inside it
         n5 = 0
-        ESZ = {'p:u8': 1, 'p:i8': 1, 'p:f32': 4, 'p:f64': 8, 'p:u64': 8, 'p:u16': 2, 'p:u32': 4}
-        aliases = {}
-        for d in f.stores():
-            if d.k == 'decl' and d.e is not None and (d.t or '').startswith('p:') and \
-                    any(nd.get('op') == 'member' and nd.get('field') == 'buffer_u64' for nd in walk(d.e)):
-                aliases[d.name] = ESZ.get(d.t)
-        lp = loops(f)
+        targets5 = [(f, ssb)]
+        for g_ in (fill_helpers if scratch_fill else []):
+            # the width variable of a helper: the parameter that receives the caller's width
+            for c_ in f.calls(g_.name):
+                for i_, a_ in enumerate(c_.args):
+                    if strip_casts(a_).get('op') == 'ref' and strip_casts(a_).get('name') == ssb and i_ < len(g_.params) and (g_, g_.params[i_]['name']) not in targets5:
+                        targets5.append((g_, g_.params[i_]['name']))
+        f_outer, ssb_outer = f, ssb
+        for f, ssb in targets5:
+            ESZ = {'p:u8': 1, 'p:i8': 1, 'p:f32': 4, 'p:f64': 8, 'p:u64': 8, 'p:u16': 2, 'p:u32': 4}
+            aliases = {}
+            for d in f.stores():
+                if d.k == 'decl' and d.e is not None and (d.t or '').startswith('p:') and \
+                        any(nd.get('op') == 'member' and nd.get('field') == 'buffer_u64' for nd in walk(d.e)):
+                    aliases[d.name] = ESZ.get(d.t)
+            lp = loops(f)
 
-        def ub(e, block, idx, w, depth=0):
-            """upper bound of an unsigned expression for sample width w (None = unbounded)"""
-            e0 = strip_casts(e)
-            if e0 is None or depth > 10:
-                return None
-            try:
-                return fd.ev(f, e0, {ssb: w})
-            except (Top, ZeroDivisionError, KeyError):
-                pass
-            op = e0.get('op')
-            if op == 'ref' and e0.get('rk') == 'local':
-                # loop variable: bounded by its loop condition  v < N
-                for h, body in lp.items():
-                    if block.id in body:
-                        c = strip_casts(f.blocks[h].cond) if f.blocks[h].cond else None
-                        if c is not None and c.get('op') == 'bin' and c['o'] in ('<', '<=') and strip_casts(c['k'][0]).get('name') == e0['name']:
-                            if block.id != h or True:
-                                n_ub = ub(c['k'][1], f.blocks[h], len(f.blocks[h].events), w, depth + 1)
-                                if n_ub is not None:
-                                    return n_ub - (1 if c['o'] == '<' else 0)
-                defs, entry = df.reaching_defs(f, e0['name'], block, idx)
-                vals = []
-                for d in defs:
-                    lhs, rhs, o = d.store_parts()
-                    if rhs is None:
-                        return None
-                    if o == '=':
-                        v = ub(rhs, d.block, d.idx, w, depth + 1)
-                    elif o == '/=':
-                        a_ = ub(lhs, d.block, d.idx, w, depth + 1)
+            def ub(e, block, idx, w, depth=0):
+                """upper bound of an unsigned expression for sample width w (None = unbounded)"""
+                e0 = strip_casts(e)
+                if e0 is None or depth > 10:
+                    return None
+                try:
+                    return fd.ev(f, e0, {ssb: w})
+                except (Top, ZeroDivisionError, KeyError):
+                    pass
+                op = e0.get('op')
+                if op == 'ref' and e0.get('rk') == 'local':
+                    # loop variable: bounded by its loop condition  v < N
+                    for h, body in lp.items():
+                        if block.id in body:
+                            c = strip_casts(f.blocks[h].cond) if f.blocks[h].cond else None
+                            if c is not None and c.get('op') == 'bin' and c['o'] in ('<', '<=') and strip_casts(c['k'][0]).get('name') == e0['name']:
+                                if block.id != h or True:
+                                    n_ub = ub(c['k'][1], f.blocks[h], len(f.blocks[h].events), w, depth + 1)
+                                    if n_ub is not None:
+                                        return n_ub - (1 if c['o'] == '<' else 0)
+                    defs, entry = df.reaching_defs(f, e0['name'], block, idx)
+                    vals = []
+                    for d in defs:
+                        lhs, rhs, o = d.store_parts()
+                        if rhs is None:
+                            return None
+                        if o == '=':
+                            v = ub(rhs, d.block, d.idx, w, depth + 1)
+                        elif o == '/=':
+                            a_ = ub(lhs, d.block, d.idx, w, depth + 1)
+                            try:
+                                b_ = fd.ev(f, rhs, {ssb: w})
+                            except (Top, ZeroDivisionError, KeyError):
+                                b_ = None
+                            v = a_ // b_ if (a_ is not None and b_) else None
+                        elif o in ('-=',):
+                            v = ub(lhs, d.block, d.idx, w, depth + 1)
+                        else:
+                            v = None
+                        if v is None:
+                            return None
+                        vals.append(v)
+                    return max(vals) if vals and not entry else None
+                if op == 'cond':
+                    ks = kids(e0)
+                    c = strip_casts(ks[0])
+                    # min idiom  (x < K) ? x : K
+                    if c.get('op') == 'bin' and c['o'] in ('<', '<='):
+                        if show(strip_casts(c['k'][0])) == show(strip_casts(ks[1])) and show(strip_casts(c['k'][1])) == show(strip_casts(ks[2])):
+                            return ub(ks[2], block, idx, w, depth + 1)
+                    a_, b_ = ub(ks[1], block, idx, w, depth + 1), ub(ks[2], block, idx, w, depth + 1)
+                    return max(a_, b_) if a_ is not None and b_ is not None else None
+                if op == 'bin':
+                    o = e0['o']
+                    a_ = ub(e0['k'][0], block, idx, w, depth + 1)
+                    b_ = ub(e0['k'][1], block, idx, w, depth + 1)
+                    if o == '+' and a_ is not None and b_ is not None:
+                        return a_ + b_
+                    if o == '*' and a_ is not None and b_ is not None:
+                        return a_ * b_
+                    if o == '/' and a_ is not None:
                         try:
-                            b_ = fd.ev(f, rhs, {ssb: w})
+                            d_ = fd.ev(f, e0['k'][1], {ssb: w})
+                            return a_ // d_ if d_ else None
                         except (Top, ZeroDivisionError, KeyError):
-                            b_ = None
-                        v = a_ // b_ if (a_ is not None and b_) else None
-                    elif o in ('-=',):
-                        v = ub(lhs, d.block, d.idx, w, depth + 1)
-                    else:
-                        v = None
-                    if v is None:
-                        return None
-                    vals.append(v)
-                return max(vals) if vals and not entry else None
-            if op == 'cond':
-                ks = kids(e0)
-                c = strip_casts(ks[0])
-                # min idiom  (x < K) ? x : K
-                if c.get('op') == 'bin' and c['o'] in ('<', '<='):
-                    if show(strip_casts(c['k'][0])) == show(strip_casts(ks[1])) and show(strip_casts(c['k'][1])) == show(strip_casts(ks[2])):
-                        return ub(ks[2], block, idx, w, depth + 1)
-                a_, b_ = ub(ks[1], block, idx, w, depth + 1), ub(ks[2], block, idx, w, depth + 1)
-                return max(a_, b_) if a_ is not None and b_ is not None else None
-            if op == 'bin':
-                o = e0['o']
-                a_ = ub(e0['k'][0], block, idx, w, depth + 1)
-                b_ = ub(e0['k'][1], block, idx, w, depth + 1)
-                if o == '+' and a_ is not None and b_ is not None:
-                    return a_ + b_
-                if o == '*' and a_ is not None and b_ is not None:
-                    return a_ * b_
-                if o == '/' and a_ is not None:
-                    try:
-                        d_ = fd.ev(f, e0['k'][1], {ssb: w})
-                        return a_ // d_ if d_ else None
-                    except (Top, ZeroDivisionError, KeyError):
+                            return a_
+                    if o == '%' and b_ is not None:
+                        return b_ - 1
+                    if o == '-' and a_ is not None:
                         return a_
-                if o == '%' and b_ is not None:
-                    return b_ - 1
-                if o == '-' and a_ is not None:
-                    return a_
-                if o == '>>' and a_ is not None:
-                    return a_
-            return None
+                    if o == '>>' and a_ is not None:
+                        return a_
+                return None
 
-        all_w = sorted(set(fd.call(psz, [dt]) for dt in dts))
-        for b in f.blocks.values():
-            items = [(ev.e, ev, ev.idx) for ev in b.events if ev.e is not None] + ([(b.cond, None, len(b.events))] if b.cond is not None else [])
-            for e, ev, pos in items:
-                for nd in walk(e):
-                    if nd.get('op') != 'sub':
-                        continue
-                    base = strip_casts(nd['k'][0])
-                    if base.get('op') == 'member' and base.get('field') == 'buffer_u64':
-                        esz = 8
-                    elif base.get('op') == 'ref' and base.get('name') in aliases:
-                        esz = aliases[base['name']]
-                    else:
-                        continue
-                    se = f.sub_event(nd['id']) or ev
-                    where = se.where() if se is not None else '%s:%d' % (f.file, b.line)
-                    n5 += 1
-                    if esz is None:
-                        ctx.ob('C09.5', False, f.name, 'scratch via %s[%s]' % (base.get('name'), show(nd['k'][1])), where, 'element size of %s unknown' % base.get('name'))
-                        continue
-                    worst = None
-                    for w in all_w:
-                        u = ub(nd['k'][1], b, pos, w)
-                        if u is None:
-                            worst = (w, None)
-                            break
-                        if worst is None or (u + 1) * esz > (worst[1] + 1) * esz:
-                            worst = (w, u)
-                    ok5 = worst is not None and worst[1] is not None and (worst[1] + 1) * esz <= scratch_bytes
-                    ctx.ob('C09.5', ok5, f.name, 'scratch[%s] via %s' % (show(nd['k'][1]), base.get('name') or 'buffer_u64'), where,
-                           'largest index %s (width %s) x %d bytes within %d' % (worst[1], worst[0], esz, scratch_bytes) if ok5 else
-                           ('index not bounded for width %s' % worst[0] if worst and worst[1] is None else
-                            'index up to %s (width %s) x %d bytes exceeds the %d-byte scratch' % (worst[1], worst[0], esz, scratch_bytes)))
+            all_w = sorted(set(fd.call(psz, [dt]) for dt in dts))
+            for b in f.blocks.values():
+                items = [(ev.e, ev, ev.idx) for ev in b.events if ev.e is not None] + ([(b.cond, None, len(b.events))] if b.cond is not None else [])
+                for e, ev, pos in items:
+                    for nd in walk(e):
+                        if nd.get('op') != 'sub':
+                            continue
+                        base = strip_casts(nd['k'][0])
+                        if base.get('op') == 'member' and base.get('field') == 'buffer_u64':
+                            esz = 8
+                        elif base.get('op') == 'ref' and base.get('name') in aliases:
+                            esz = aliases[base['name']]
+                        else:
+                            continue
+                        se = f.sub_event(nd['id']) or ev
+                        where = se.where() if se is not None else '%s:%d' % (f.file, b.line)
+                        n5 += 1
+                        if esz is None:
+                            ctx.ob('C09.5', False, f.name, 'scratch via %s[%s]' % (base.get('name'), show(nd['k'][1])), where, 'element size of %s unknown' % base.get('name'))
+                            continue
+                        worst = None
+                        # under `data_type == T` only the width of T occurs
+                        widths_here = all_w
+                        for (bid_, label_) in control_deps_transitive(f, b.id):
+                            c_ = strip_casts(f.blocks[bid_].cond) if f.blocks[bid_].cond is not None else None
+                            if c_ is not None and c_.get('op') == 'bin' and c_['o'] == '==' and label_ == 'T' and \
+                                    any(m_.get('op') == 'member' and m_.get('field') == 'data_type' for m_ in walk(c_['k'][0])) and const_of(c_['k'][1]) is not None:
+                                try:
+                                    widths_here = [fd.call(psz, [const_of(c_['k'][1])])]
+                                except (Top, ZeroDivisionError):
+                                    pass
+                        for w in widths_here:
+                            u = ub(nd['k'][1], b, pos, w)
+                            if u is None:
+                                worst = (w, None)
+                                break
+                            if worst is None or (u + 1) * esz > (worst[1] + 1) * esz:
+                                worst = (w, u)
+                        ok5 = worst is not None and worst[1] is not None and (worst[1] + 1) * esz <= scratch_bytes
+                        ctx.ob('C09.5', ok5, f.name, 'scratch[%s] via %s' % (show(nd['k'][1]), base.get('name') or 'buffer_u64'), where,
+                               'largest index %s (width %s) x %d bytes within %d' % (worst[1], worst[0], esz, scratch_bytes) if ok5 else
+                               ('index not bounded for width %s' % worst[0] if worst and worst[1] is None else
+                                'index up to %s (width %s) x %d bytes exceeds the %d-byte scratch' % (worst[1], worst[0], esz, scratch_bytes)))
+
+        f, ssb = f_outer, ssb_outer
         ctx.floor('scratch subscripts', n5, 3)
     realign_reads_rule(ctx, P, f, fd, psz, dts)
     level0_stats_rule(ctx, P)
